@@ -212,28 +212,17 @@ def _portfolio(ctx, bg, name, goal, guard, budget):
   except z3.Z3Exception:
     pass
   r = sess = None
-  sampled = True
-  # counterexample search by concretisation: fix the float inputs (array reads) to sample values, which makes the query
-  # (almost) linear.  Only a `sat` answer is used - it is a genuine model of the original query (constraints were added).
-  for seed in range(3):
-    fix = sample_inputs([core.zbool(goal), core.zbool(guard)] + [core.zbool(b) for b in bg], seed)
-    s2 = _mk_session(ctx, list(bg) + fix, "smt", max(1000, int(budget * 0.1)))
-    r2 = s2.prove(name, goal, guard)
-    if r2.status == "sat":
-      r2.strategy = "sampled-inputs"
-      return r2, s2
-  for strat, extra, frac in plans:
-    sess = _mk_session(ctx, list(bg) + extra, strat, max(1000, int(budget * frac)))
+  for n_, (strat, extra, frac) in enumerate(plans):
+    sess = _mk_session(ctx, list(bg) + extra, strat, max(1000, int(budget * (0.1 if n_ == 0 else frac))))
     r = sess.prove(name, goal, guard)
     if r.status in ("unsat", "sat"):
       _BEST[kind] = (strat, bool(extra))
       r.strategy = strat + ("+lemmas" if extra else "")
       return r, sess
-    if not sampled:
+    if n_ == 0:
       # counterexample search by concretisation (after the first inconclusive attempt): fix the float inputs (array
       # reads) to sample values, which makes the query (almost) linear.  Only a `sat` answer is used - it is a genuine
       # model of the original query, because constraints were only added.
-      sampled = True
       for seed in range(3):
         fix = sample_inputs([core.zbool(goal), core.zbool(guard)] + [core.zbool(b) for b in bg], seed)
         s2 = _mk_session(ctx, list(bg) + fix, "smt", max(1000, int(budget * 0.1)))
@@ -1154,9 +1143,10 @@ def unit_jac_dot_dof(ctx):
     ctx.reach(sess, f"twin:{nm}", And(anc, cond) if nm != "not-an-ancestor" else cond)
   names = {"body": b, "dof": dof, "world": w, "dof_body": db, "jnt_type": jt, "jnt_dofadr": jadr, "isancestor": isanc}
   rp_ = lib.make_replay(ctx, kt, loc, "jacdot", "goal", goal="checks.c05:goal_jacdot", env={"randomize_floats": 2})
+  bgj = kt.bg + [core.zbool(Implies(isanc != 0, inb))]
   for i in range(3):
-    ctx.prove(sess, f"jacp/{i}", kt.post("jacp_out", 0, k=i) == core.to_z3(rp[i], "real"), True, names=names, replay=rp_, desc=f"jac_dot_dof: translational entry {i} differs from the mj_jacDot column cdof_dot_lin + cdof_dot_ang x offset + cdof_ang x pvel_lin (cdof_dot of quaternion dofs = crossMotion(cvel[dof's body], cdof))")
-    ctx.prove(sess, f"jacr/{i}", kt.post("jacr_out", 0, k=i) == core.to_z3(rr[i], "real"), True, names=names, replay=rp_, desc=f"jac_dot_dof: rotational entry {i} differs from cdof_dot_ang of mj_jacDot (0 for a non-ancestor dof)")
+    prove_hard(ctx, bgj, f"jacp/{i}", kt.post("jacp_out", 0, k=i) == core.to_z3(rp[i], "real"), True, None, True, names=names, replay=rp_, desc=f"jac_dot_dof: translational entry {i} differs from the mj_jacDot column cdof_dot_lin + cdof_dot_ang x offset + cdof_ang x pvel_lin (cdof_dot of quaternion dofs = crossMotion(cvel[dof's body], cdof))")
+    prove_hard(ctx, bgj, f"jacr/{i}", kt.post("jacr_out", 0, k=i) == core.to_z3(rr[i], "real"), True, None, True, names=names, replay=rp_, desc=f"jac_dot_dof: rotational entry {i} differs from cdof_dot_ang of mj_jacDot (0 for a non-ancestor dof)")
 
 
 def main(tier, seed, only=None):
